@@ -262,11 +262,11 @@ class Expander:
         r = self.res
         n_el = 0
         other = False
-        for n in nodes:
+        for idx, n in enumerate(nodes):
             before = len(r.events)
             if isinstance(n, El):
                 if n.ns == XI and n.local == 'include':
-                    self.include(n, origin, where, depth)
+                    self.include(n, origin, where, depth, idx == 0 and not toplevel)
                 elif n.ns == XI and n.local == 'fallback':
                     raise Fatal('orphan-fallback', where)
                 else:
@@ -298,7 +298,7 @@ class Expander:
                         other = True
         if toplevel and (n_el != 1 or other):
             if depth == 0:
-                raise Fatal('document-element-not-one-element', where)
+                raise Fatal('document-element-replaced-by-nothing' if n_el == 0 and not other else 'document-element-not-one-element', where)
             raise Undecided('document element of an included document replaced by a non-element')
 
     def text(self, s, origin):
@@ -311,7 +311,7 @@ class Expander:
             r.events.append(('CH', s))
             r.origins.append(origin)
 
-    def include(self, n, origin, where, depth):
+    def include(self, n, origin, where, depth, first_child=False):
         r = self.res
         fallbacks = [c for c in n.children if isinstance(c, El) and c.ns == XI and c.local == 'fallback']
         others = [c for c in n.children if isinstance(c, El) and c.ns == XI and c.local != 'fallback']
@@ -421,7 +421,8 @@ class Expander:
             w = where if ':fallback' in where else where + ':fallback'
             before = len(r.events)
             self.emit(fb.children, 'fallback:' + where.split(':')[0], w, depth)
-            if len(r.events) == before and r.events and r.events[-1][0] == 'SE':
+            if len(r.events) == before and first_child and depth == 0:
+                # (the parser of the library loses its current node here: known crash, named in the key of crash violations)
                 r.features.add('include-replaced-by-nothing:first-child')
 
 
